@@ -47,7 +47,7 @@ func TestC11Recrash(t *testing.T) {
 	m := mon.New(t, "C11", "recrash")
 	defer m.Finish()
 	m.Rule("double faults: as in stage crash a transition (append of a zone / region / prime block incl. execution, zone reorg) is crashed after its k-th database write operation; the RECOVERY (opening three cores on the surviving image = loadLastState etc., re-delivering the interrupted block(s), recomputing pending headers) is then itself run on the fault wrapper: a dry run records its M write operations and for every j in [0,M] only the first j take effect; the cores are discarded again, new cores opened and judged: restart succeeds, zone head is an old or a new head, its UTXO root / set size equal a database scan, every node of its account, storage and ETX-set tries is readable, by-number lookups up to each level's head give the head's ancestors, the interrupted block(s) and a successor append (every order; every level the last block belongs to must make it its head), and the canonical index, head pointers, unspent outputs, lockup records, set size and multiset then equal byte for byte those of a node that appended the same blocks without any crash; class = transition kind x kind of the first dropped operation at k x kind of the first dropped operation at j; distinct = (transition, k, j)")
-	m.Assume("unit of failure is a put/delete or a whole batch commit (storage-engine internals and fsync reordering are outside go-quai)", "a block the restarted node refuses with a transient error (sub not synced to dom, pending etx / rollup not found, body not found) is offered again like the append queue does (up to 40 deliveries; after 10 failed appends a dominant level fetches missing pending ETXs from its subordinate itself)", "protocol timeline and TrimDepths compressed", "quick tier: every (k,j) of two zone-order appends and of one zone reorg, every second k and j of one dominant-order append")
+	m.Assume("unit of failure is a put/delete or a whole batch commit (storage-engine internals and fsync reordering are outside go-quai)", "a block the restarted node refuses with a transient error (sub not synced to dom, pending etx / rollup not found, body not found) is offered again like the append queue does (up to 40 deliveries; after 10 failed appends a dominant level fetches missing pending ETXs from its subordinate itself)", "protocol timeline and TrimDepths compressed", "quick tier: every (k,j) of two zone-order appends, every k and every second j of one zone reorg, every second k and j of one dominant-order append")
 	defer func() { m.Extra("redeliveries_needed", atomic.LoadInt64(&redeliveries)) }()
 	r := m.Rand("history")
 	a, err := hnet.NewActivity(r, hnet.Options{})
@@ -138,7 +138,7 @@ func TestC11Recrash(t *testing.T) {
 		if thorough {
 			jobs = append(jobs, func() { sc.double(nil, nil) })
 		} else {
-			jobs = append(jobs, func() { sc.double(nil, nil) })
+			jobs = append(jobs, func() { sc.double(nil, every(2)) })
 		}
 		if thorough && si == 0 {
 			sc2 := &scen{m: m, base: base, pre: &memWorld{tipImg}, oldHeads: old, zoneOnly: true,
